@@ -22,6 +22,7 @@ import (
 	_ "github.com/pion/interceptor/verifh/c13"
 	_ "github.com/pion/interceptor/verifh/c14"
 	_ "github.com/pion/interceptor/verifh/c15"
+	_ "github.com/pion/interceptor/verifh/c16"
 	_ "github.com/pion/interceptor/verifh/c17"
 	_ "github.com/pion/interceptor/verifh/c20"
 	"github.com/pion/interceptor/verifh/dbg"
